@@ -20,6 +20,7 @@ import (
 	"path/filepath"
 	"reflect"
 	"runtime"
+	"sort"
 	"strings"
 	"sync"
 	"time"
@@ -380,6 +381,10 @@ func (c *checker) try(m *mut, t tally) {
 	acc, reason := c.submit(m, "")
 	if acc {
 		t["verified_mutants/"+m.Class+"/"+m.Region]++
+		if os.Getenv("C16_DEBUG") != "" {
+			d := c.docs[m.Doc]
+			fmt.Fprintf(os.Stderr, "VERIFIED %s rel=%d of %d val=%q\n", m.caseID(), m.Pos-len(d.T)-len(sep), len(d.S), m.Val)
+		}
 		t["reached_signature_check/"+m.Region]++
 		c.smu.Lock()
 		if c.vsamples < 2 {
@@ -407,7 +412,8 @@ func regionOf(d *docCase, pos int, insert bool) string {
 }
 
 // positional runs every substitution / insertion / deletion / truncation at positions [lo,hi).
-func (c *checker) positional(d *docCase, lo, hi int) {
+// With full set, every one of the 255 other byte values is substituted and all 256 are inserted.
+func (c *checker) positional(d *docCase, lo, hi int, full bool) {
 	t := tally{}
 	defer c.flush(t)
 	s := d.signed
@@ -425,6 +431,9 @@ func (c *checker) positional(d *docCase, lo, hi int) {
 				vals = append(vals, '=')
 			} else {
 				vals = append(vals, '0')
+			}
+			if full {
+				vals = allBytes
 			}
 			var seen [256]bool
 			seen[ch] = true
@@ -446,6 +455,9 @@ func (c *checker) positional(d *docCase, lo, hi int) {
 		ins := []byte{'"', 'A', ' ', '}'}
 		if p < len(s) {
 			ins = append(ins, s[p])
+		}
+		if full {
+			ins = allBytes
 		}
 		var seen [256]bool
 		for _, v := range ins {
@@ -600,7 +612,8 @@ func run(r *ev.Run) {
 	}
 
 	// ---- documents, signed (rule 1)
-	nDocs := r.Pick(12, 160)
+	nDocs := r.Pick(36, 220)
+	nFull := r.Pick(1, 14) // documents (the shortest ones) that get all 256 byte values at every position
 	rng := r.Rand("documents")
 	g := &docGen{rng: rng}
 	yearsSeen := map[int]bool{}
@@ -662,6 +675,15 @@ func run(r *ev.Run) {
 	type job func()
 	var jobs []job
 	const chunk = 64
+	byLen := append([]*docCase(nil), c.docs...)
+	sort.SliceStable(byLen, func(i, j int) bool { return len(byLen[i].signed) < len(byLen[j].signed) })
+	fullSet := map[int]bool{}
+	for _, d := range byLen {
+		if d.signed != "" && len(fullSet) < nFull {
+			fullSet[d.idx] = true
+			r.Count("documents_with_all_byte_values", 1)
+		}
+	}
 	for _, d := range c.docs {
 		d := d
 		if d.signed == "" {
@@ -672,7 +694,14 @@ func run(r *ev.Run) {
 		}
 		for lo := 0; lo <= len(d.signed); lo += chunk {
 			lo, hi := lo, min(lo+chunk, len(d.signed)+1)
-			jobs = append(jobs, func() { c.positional(d, lo, hi) })
+			if fullSet[d.idx] {
+				for p := lo; p < hi; p += 4 {
+					p := p
+					jobs = append(jobs, func() { c.positional(d, p, min(p+4, hi), true) })
+				}
+				continue
+			}
+			jobs = append(jobs, func() { c.positional(d, lo, hi, false) })
 		}
 		jobs = append(jobs, func() { c.packetBytes(d) }, func() { c.special(d) })
 	}
@@ -720,6 +749,14 @@ func run(r *ev.Run) {
 		}
 	}
 }
+
+var allBytes = func() []byte {
+	b := make([]byte, 256)
+	for i := range b {
+		b[i] = byte(i)
+	}
+	return b
+}()
 
 var classes = []string{"subst", "insert", "delete", "truncate", "packet-byte", "payload-extend", "transplant-sig", "double-sig",
 	"resign-other-key", "swap-signer", "armor-truncate", "armor-extend", "separator-variant", "sig-json-variant", "unsigned"}
